@@ -4,18 +4,25 @@
 (* divergence of a trace the real store may legitimately differ from the reference, so only    *)
 (* the first divergence is reported (its detail names operation, state class of the key and    *)
 (* ttl class - the "specific input" a known finding is keyed by).                              *)
+(* Sweep-race traces (round 4): one trace = many short per-key histories separated by `Reset`;  *)
+(* after `Racing` the recorded operations of the key ran while CleanupExpired (explicit and / or  *)
+(* the StartCleanup ticker) was sweeping the same map.  The sweep is not an operation of the      *)
+(* reference (KVRef!Apply "Sweep" is the identity), so every linearization of such a history is    *)
+(* the key's own sequential history: a divergence there is reported under clause NotAtomic.       *)
 EXTENDS KVRef, VLib
 
 AllKeys == {"s1", "s2", "l1", "l2", "h1", "c1"}
-VARIABLES store, clock, div, last   \* last = description of the latest mutating operation
-vars == <<l, viol, store, clock, div, last>>
+VARIABLES store, clock, div, last,  \* last = description of the latest mutating operation
+          racing                    \* "" or what ran concurrently with the operations that follow ("sweep")
+vars == <<l, viol, store, clock, div, last, racing>>
 
 Fresh == [k \in AllKeys |-> NoneOf(k)]
 
-Init == l = 1 /\ viol = {} /\ store = Fresh /\ clock = 0 /\ div = FALSE /\ last = "init"
+Init == l = 1 /\ viol = {} /\ store = Fresh /\ clock = 0 /\ div = FALSE /\ last = "init" /\ racing = ""
 
 EntryClass(e) == IF ~e.p THEN "absent" ELSE IF ~Live(e, clock) THEN "ghost" ELSE TtlClass(e, clock)
-Detail(o) == o.op \o ":" \o EntryClass(store[o.k])
+Detail(o) == IF o.op = "Sweep" THEN "Sweep" ELSE
+             o.op \o ":" \o EntryClass(store[o.k])
              \o (IF "ttl" \in DOMAIN o THEN ":ttl=" \o o.ttl ELSE "")
              \o (IF o.op = "CAS" THEN ":old=" \o (IF o.old = "nil" THEN "nil" ELSE IF Live(store[o.k], clock) /\ store[o.k].v = o.old THEN "match" ELSE "other") ELSE "")
 
@@ -27,22 +34,29 @@ TrOp == /\ Is("Op")
                good == Same(o, a.res, Ev.res)
            IN /\ store' = a.st
               /\ IF div \/ good THEN viol' = viol /\ div' = div
-                 ELSE viol' = viol \cup {V("Result", Ev.be \o ":" \o Detail(o) \o (IF IsRead(o) THEN "<-" \o last ELSE ""))} /\ div' = TRUE
-              /\ last' = IF IsRead(o) THEN last ELSE Detail(o)
-        /\ clock' = clock /\ l' = l + 1
+                 ELSE viol' = viol \cup {V(IF racing = "" THEN "Result" ELSE "NotAtomic",
+                                            Ev.be \o ":" \o (IF racing = "" THEN "" ELSE racing \o "-race:") \o Detail(o) \o (IF IsRead(o) THEN "<-" \o last ELSE ""))} /\ div' = TRUE
+              /\ last' = IF IsRead(o) THEN last ELSE IF o.op = "Sweep" THEN "Sweep<-" \o last ELSE Detail(o)
+        /\ clock' = clock /\ l' = l + 1 /\ UNCHANGED racing
 
-TrTick == Is("Tick") /\ clock' = clock + 1 /\ l' = l + 1 /\ UNCHANGED <<viol, store, div, last>>
+TrTick == Is("Tick") /\ clock' = clock + 1 /\ l' = l + 1 /\ UNCHANGED <<viol, store, div, last, racing>>
+
+\* Racing [with]: from here on the operations of this history ran concurrently with `with` (the expiry sweep)
+TrRacing == Is("Racing") /\ racing' = Ev.with /\ l' = l + 1 /\ UNCHANGED <<viol, store, clock, div, last>>
+\* Reset: the next per-key history of the same trace starts from the empty store (violations are kept)
+TrReset == /\ Is("Reset") /\ l' = l + 1 /\ store' = Fresh /\ clock' = 0 /\ div' = FALSE /\ last' = "init" /\ racing' = ""
+           /\ UNCHANGED viol
 
 \* Held [be, what, same]: an answer already given is a value, not a view - the driver keeps every list / hash answer
 \* it received and compares it again after all later operations; an answer that changed afterwards shares memory
 \* with the store (a sequential map with value semantics cannot do that)
 TrHeld == /\ Is("Held")
           /\ viol' = viol \cup (IF Ev.same THEN {} ELSE {V("Aliased", Ev.be \o ":" \o Ev.what)})
-          /\ l' = l + 1 /\ UNCHANGED <<store, clock, div, last>>
+          /\ l' = l + 1 /\ UNCHANGED <<store, clock, div, last, racing>>
 
 TrEnd == /\ Is("End") /\ EmitVerdict
-         /\ l' = l + 1 /\ viol' = {} /\ store' = Fresh /\ clock' = 0 /\ div' = FALSE /\ last' = "init"
+         /\ l' = l + 1 /\ viol' = {} /\ store' = Fresh /\ clock' = 0 /\ div' = FALSE /\ last' = "init" /\ racing' = ""
 
-Next == TrOp \/ TrTick \/ TrHeld \/ TrEnd
+Next == TrOp \/ TrTick \/ TrHeld \/ TrRacing \/ TrReset \/ TrEnd
 Spec == Init /\ [][Next]_vars
 =============================================================================
